@@ -304,7 +304,12 @@ func (l *layout) printStatement(b *strings.Builder, s *sx.Node, depth int) {
 	case "set":
 		l.emit(b, depth, "<<set"+l.sp(1)+"$"+s.L[1].Text()+l.sp(1)+l.spell(s.L[2].Text())+l.sp(1)+l.printExpr(s.L[3], 0)+l.sp(0)+">>", true)
 	case "declare":
-		l.emit(b, depth, "<<declare"+l.sp(1)+"$"+s.L[1].Text()+l.sp(1)+l.spell("=")+l.sp(1)+l.printExpr(s.L[2], 7)+l.sp(0)+">>", true)
+		// the `as <type>` clause is parsed and ignored: writing it (with the value's type or another one) is layout
+		as := ""
+		if l.pct(l.cmdSpaces) || l.parens == 2 && l.r.Intn(3) == 0 {
+			as = l.sp(1) + "as" + l.sp(1) + []string{"number", "string", "bool"}[l.r.Intn(3)]
+		}
+		l.emit(b, depth, "<<declare"+l.sp(1)+"$"+s.L[1].Text()+l.sp(1)+l.spell("=")+l.sp(1)+l.printExpr(s.L[2], 7)+as+l.sp(0)+">>", true)
 	case "jump":
 		e := s.L[1]
 		if e.TagName() == "str" && isIdent(e.L[1].Text()) {
